@@ -204,7 +204,13 @@ impl Model {
 				}
 			}
 			Op::PayInvoice { w, m, args } if out.ok => {
-				if let Some(d) = self.deal_of_msg(run, *m) {
+				// an invoice already being paid by another wallet: the second payer's
+				// attempt is a separate exchange the DealBook does not follow
+				let other_payer = self
+					.deal_of_msg(run, *m)
+					.map(|d| self.deals[d].payer.map(|p| p != *w).unwrap_or(false))
+					.unwrap_or(false);
+				if let (Some(d), false) = (self.deal_of_msg(run, *m), other_payer) {
 					let snap = run.ex.world.snap(*w);
 					{
 						let deal = &mut self.deals[d];
